@@ -86,11 +86,22 @@ def find_direct(tree, kind, pred):
     return 999999
 
 
-def parse_errors(tree, msgs):
+def parse_errors(tree, msgs, parse_t=parse_t, strip=None):
     """Map Wire's error texts to the model's diag constructors (class + types/ids only)."""
     out = []
     for m in msgs:
+        if strip:
+            m = strip(m)
         first = m.split("\n")[0]
+        mm = re.match(r"provider for (\S+) returns cleanup but injection does not return cleanup function$", first)
+        if mm:
+            out.append(("DNeedsCleanup", parse_t(mm.group(1)))); continue
+        mm = re.match(r"provider for (\S+) returns error but injection not allowed to fail$", first)
+        if mm:
+            out.append(("DNeedsErr", parse_t(mm.group(1)))); continue
+        mm = re.match(r"value (\S+) can't be used: ", first)
+        if mm:
+            out.append(("DValueAccess", parse_t(mm.group(1)))); continue
         mm = re.search(r"multiple bindings for (\S+)$", first)
         if mm:
             out.append(("DMulti", parse_t(mm.group(1)))); continue
@@ -102,7 +113,7 @@ def parse_errors(tree, msgs):
             lines = m.split("\n")[1:]
             ts = [parse_t(l.split(" ")[0]) for l in lines]
             out.append(("DCycle", ts)); continue
-        mm = re.match(r"no provider found for (\*?[\w.]+)", first)
+        mm = re.match(r"no provider found for (\*?[\w./]+)", first)
         if mm:
             out.append(("DNoProvider", parse_t(mm.group(1)))); continue
         mm = re.match(r'unused provider set "S(\d+)"$', first)
@@ -110,9 +121,13 @@ def parse_errors(tree, msgs):
             out.append(("DUnusedSet", int(mm.group(1)))); continue
         if first == "unused provider set":
             out.append(("DUnusedSet", 0)); continue
-        mm = re.match(r'unused provider "s\.p(\d+)"$', first)
+        mm = re.match(r'unused provider "\w+\.[pP](\d+)"$', first)
         if mm:
             out.append(("DUnusedProv", int(mm.group(1)))); continue
+        mm = re.match(r'unused provider "\w+\.T(\d+)"$', first)
+        if mm:
+            k = int(mm.group(1))
+            out.append(("DUnusedProv", find_direct(tree, "providers", lambda p: p["struct"] and p["outs"][0] // 2 == k))); continue
         mm = re.match(r"unused value of type (\S+)$", first)
         if mm:
             t = parse_t(mm.group(1))
